@@ -33,6 +33,8 @@ func c07pool(r func(int) int, extra int) []*variants.Variant {
 	pool := valuePool(true)
 	pool = append(pool,
 		variants.VariantFromInteger(1<<53), variants.VariantFromInteger(1<<53+1), variants.VariantFromLong(1<<53+1), variants.VariantFromLong(-(1 << 53)),
+		variants.VariantFromLong(1<<60+1<<36+1), variants.VariantFromLong(-(1<<60 + 1<<36 + 1)), variants.VariantFromLong(1<<60+3<<36-1), variants.VariantFromInteger(1<<60+1<<36+1),
+		variants.VariantFromLong(1<<24+1), variants.VariantFromLong(1<<25+3), variants.VariantFromInteger(1<<53+1<<29+1),
 		variants.VariantFromInteger(1<<24+1), variants.VariantFromLong(1<<24), variants.VariantFromInteger(1000), variants.VariantFromLong(86400),
 		variants.VariantFromDouble(1<<53), variants.VariantFromDouble(1e15), variants.VariantFromDouble(-7), variants.VariantFromDouble(2.75), variants.VariantFromFloat(16777216),
 		variants.VariantFromString("12"), variants.VariantFromString("-7"), variants.VariantFromString("false"), variants.VariantFromString("007"), variants.VariantFromString("x1"),
@@ -116,6 +118,16 @@ func execC07(seg []Ev) []Ev {
 			so, sr, _ := convCall("safe", v, to)
 			uo, ur, _ := convCall("unsafe", v, to)
 			e["to"], e["so"], e["sr"], e["uo"], e["ur"] = to, so, valJSON(sr), uo, valJSON(ur)
+		case "alias":
+			mgr, to := toStr(in["mgr"]), toStr(in["to"])
+			o1, r1, _ := convCall(mgr, v, to)
+			e["mgr"], e["to"], e["o1"], e["r1"], e["scribbled"] = mgr, to, o1, valJSON(r1), false
+			if o1 == "value" && r1 != v {
+				r1.SetAsInteger(424242)
+				e["scribbled"] = true
+			}
+			o2, r2, _ := convCall(mgr, v, to)
+			e["o2"], e["r2"] = o2, valJSON(r2)
 		case "chain":
 			via := toStr(in["via"])
 			o1, r1, _ := convCall("unsafe", v, via)
@@ -150,6 +162,11 @@ func genC07(g *Gen) {
 			}
 			g.Run("safe vs unsafe agreement", []Ev{mk("op", "both", "vi", vi, "to", to)})
 			g.Run("two-step chains", []Ev{mk("op", "chain", "vi", vi, "via", to)})
+			if vi%4 == 0 {
+				for _, mgr := range []string{"unsafe", "safe"} {
+					g.Run("results are not aliased between calls", []Ev{mk("op", "alias", "mgr", mgr, "vi", vi, "to", to)})
+				}
+			}
 		}
 	}
 }
